@@ -54,6 +54,8 @@ type disArm struct {
 	Consts   []string
 	Ret      string
 	Fallback bool // handled by the default clause
+	Relative bool // the decoder returns the instruction length
+	Absolute bool // the decoder returns the next offset
 }
 
 type disModel struct {
@@ -61,6 +63,8 @@ type disModel struct {
 	FuncName  string
 	Arms      map[string]*disArm
 	Undecided []string
+	Relative  int // arms returning the instruction length
+	Absolute  int // arms returning the next offset
 }
 
 func (c *Ctx) findDisasm() (*ast.FuncDecl, *ast.SwitchStmt) {
@@ -229,6 +233,12 @@ func (c *Ctx) disModel() (*disModel, error) {
 				arm.Fallback = true
 			}
 			shape, why := disShape(p, r)
+			if strings.HasSuffix(shape, "|len") {
+				shape = strings.TrimSuffix(shape, "|len")
+				arm.Relative = true
+			} else if why == "" {
+				arm.Absolute = true
+			}
 			if why != "" {
 				arm.Why = why
 			} else if first {
@@ -239,8 +249,16 @@ func (c *Ctx) disModel() (*disModel, error) {
 				arm.OK, arm.Why = false, fmt.Sprintf("paths disagree on the operand shape: %q vs %q", arm.Shape, shape)
 			}
 		}
+		if arm.Relative && arm.Absolute {
+			arm.Why = "some paths return the next offset and others the instruction length"
+		}
 		if arm.Why != "" {
 			arm.OK = false
+		}
+		if arm.Relative {
+			m.Relative++
+		} else if arm.OK {
+			m.Absolute++
 		}
 		m.Arms[op.Name] = arm
 	}
@@ -275,7 +293,12 @@ func disShape(p *disPay, r *State) (string, string) {
 		at = at.add(rd.Size)
 		shape += rd.Kind
 	}
-	if !ret.equal(at) {
+	switch {
+	case ret.equal(at):
+	case ret.equal(at.sub(linSym("offset"))):
+		// the decoder gives the length of the instruction instead of the next offset (the walk adds it)
+		shape += "|len"
+	default:
 		return "", fmt.Sprintf("returns %s as the next offset, but the decoded fields end at %s", ret, at)
 	}
 	return shape, ""
